@@ -132,7 +132,9 @@ class FileWriteable(FileReadable, metaclass=ABCMeta):
 
     def file_write(self) -> None:
         file_path = self.get_file(self.path)
-        with NamedTemporaryFile('w', delete=False) as tmp:
+        # next to the target: os.rename() cannot cross file systems
+        with NamedTemporaryFile('w', delete=False,
+                                dir=os.path.dirname(file_path)) as tmp:
             self.write(tmp)
         os.rename(tmp.name, file_path)
         self._touched = False
